@@ -18,7 +18,10 @@ RULE = (
     "type systems of 0-7 user types (trees under built-in supertypes, DocumentAnnotation and earlier user types; names "
     "with, without and with nested namespaces and colliding short names; feature ranges over every built-in and every "
     "user type, later ones included; elementType; multipleReferencesAllowed None/true/false; features self/type/self_; "
-    "descriptions None, empty, blank, padded, non-ASCII, with markup characters; features added to DocumentAnnotation) "
+    "descriptions None, empty, blank, padded, non-ASCII, with markup characters; features added to DocumentAnnotation; in "
+    "20% a DocumentAnnotation of the type system's own -- TypeSystem(add_document_annotation_type=False) + create_type at any "
+    "admissible place, own description and supertype, own features: none at all (~45% of them), with or without "
+    "`language`, `language` of any range -- which is also what the harness-written descriptors then redeclare) "
     "built through the API in a shuffled create_feature order. Per type system: to_xml() lifted with xml.etree and "
     "compared with the model; the round trip load(to_xml()); and three descriptors written by the harness's own writer "
     "from a pool of declarations (identity order; a random permutation with identically / acceptably redeclared "
@@ -45,7 +48,9 @@ TRUSTED = [
     "create_feature are evaluated in Coq on every distinct loaded content and read back against the implementation's dump",
 ]
 ASSUMPTIONS = [
-    "the type system has a DocumentAnnotation (TypeSystem() default); type names are unique, non-empty, trimmed",
+    "the type system has a DocumentAnnotation (the TypeSystem() default, possibly extended, or one created by the user on "
+    "TypeSystem(add_document_annotation_type=False)); an own DocumentAnnotation whose only feature is named `language` "
+    "must be the default one (the writer leaves it out, docann_okb); type names are unique, non-empty, trimmed",
     "no feature is declared again along a supertype chain; references are closed; no inheritance from final array types",
     "identifiers and descriptions do not begin or end with non-ASCII white space; descriptions survive up to strip() and \"\" = absent",
     "every typeDescription has a name with text, and (general theorems) the names are distinct after trimming",
@@ -109,6 +114,7 @@ def _ancestors_names(sc_types, docann_feats, tname):
     cur = by[tname]["s"] if tname in by else None
     while cur is not None:
         if cur == DOCANN:
+            # (`language` stays reserved below an own DocumentAnnotation that has none: fewer names, nothing else)
             taken |= {"language"} | {_py(f["n"]) for f in docann_feats}
             break
         if cur in by:
@@ -142,7 +148,36 @@ def _gen_feat(rng, names, taken, all_types):
     return {"n": n, "d": rng.choice(DESCRS), "r": r, "e": e, "m": rng.choice([None, None, True, False])}
 
 
-def _gen_ts(rng, big=False):
+OWN_SUPERS = [ANN] * 8 + ["uima.cas.AnnotationBase", "uima.cas.TOP"]
+
+
+def _da_feats(sc):
+    """the own features of DocumentAnnotation as declared: `language` first unless the type system brings its own one"""
+    return ([] if sc.get("own") else [LANG]) + sc["da"]
+
+
+def _own_ok(sc):
+    """a DocumentAnnotation of the type system's own whose only feature is called `language` is left out by the writer like
+    the default one (ASSUMPTIONS): not generated, not shrunk to"""
+    return not sc.get("own") or [f["n"] for f in sc["da"]] != ["language"]
+
+
+def _gen_own(rng, types, names):
+    """A DocumentAnnotation that the type system declares itself (TypeSystem(add_document_annotation_type=False) +
+    create_type): its own description and supertype, its own features -- none at all in a good third of the cases, with or
+    without `language`, `language` anywhere and of any range.  `at` = how many user types are created before it."""
+    first = min([i for i, t in enumerate(types) if t["s"] == DOCANN] or [len(types)])
+    taken, feats = set(), []
+    for _ in range(rng.choice([0, 0, 0, 1, 1, 2, 3])):
+        f = _gen_feat(rng, names, taken, names)
+        if f:
+            feats.append(f)
+    if [f["n"] for f in feats] == ["language"]:
+        feats = []
+    return {"d": rng.choice(DESCRS), "s": rng.choice(OWN_SUPERS), "at": rng.randint(0, first)}, feats
+
+
+def _gen_ts(rng, big=False, own=False):
     nt = rng.choice([0, 1, 2, 2, 3, 3, 4, 5, 6, 7]) if not big else rng.randint(8, 40)
     names = []
     while len(names) < nt:
@@ -154,8 +189,10 @@ def _gen_ts(rng, big=False):
     for i, n in enumerate(names):
         s = rng.choice(names[:i]) if i and rng.random() < 0.55 else rng.choice(SUPERS)
         types.append({"n": n, "d": rng.choice(DESCRS), "s": s, "f": []})
-    dfe = []
-    if rng.random() < 0.4:
+    dfe, ownd = [], None
+    if own:
+        ownd, dfe = _gen_own(rng, types, names)
+    elif rng.random() < 0.4:
         taken = {"language"}
         for _ in range(rng.choice([1, 1, 2])):
             f = _gen_feat(rng, names, taken, names)
@@ -176,7 +213,7 @@ def _gen_ts(rng, big=False):
         j = nxt.get(tn, 0)
         nxt[tn] = j + 1
         seq.append([tn, j])
-    return types, dfe, seq
+    return types, dfe, seq, ownd
 
 
 def _bi_entry(rng, ok):
@@ -198,11 +235,12 @@ LANG = {"n": "language", "d": None, "r": "uima.cas.String", "e": None, "m": None
 BEGIN = {"n": "begin", "d": None, "r": "uima.cas.Integer", "e": None, "m": None}
 
 
-def _gen_extra(rng, types, dfe):
+def _gen_extra(rng, types, dfe, own=None):
     kind = rng.choice(["redef_eq", "redef_eq", "redef_eq", "redef_diff", "redef_diff", "range", "elem", "super", "final"])
     fresh = {"n": "zz", "d": rng.choice([None, "fresh"]), "r": "uima.cas.String", "e": None, "m": None}
     if kind in ("redef_eq", "redef_diff"):
-        cands = [(t["n"], f) for t in types for f in t["f"]] + [(DOCANN, f) for f in dfe] + [(DOCANN, LANG), (ANN, BEGIN)]
+        cands = [(t["n"], f) for t in types for f in t["f"]] + [(DOCANN, f) for f in dfe] + \
+                ([] if own else [(DOCANN, LANG)]) + [(ANN, BEGIN)]
         sup, f = rng.choice(cands)
         g = dict(f)
         g["m"] = rng.choice([None, True, False])           # Feature.__eq__ does not look at the flag
@@ -237,8 +275,8 @@ def generate(rng, tier):
     n = {"quick": 600, "thorough": 6000, "search": 3000}[tier]
     for i in range(n):
         big = tier == "thorough" and i % 300 == 299
-        types, dfe, seq = _gen_ts(rng, big)
-        declare_da = bool(dfe) or rng.random() < 0.15
+        types, dfe, seq, own = _gen_ts(rng, big, own=rng.random() < 0.2)
+        declare_da = bool(dfe) or own is not None or rng.random() < 0.15
         nuser = len(types) + (1 if declare_da else 0)
         bis = [_bi_entry(rng, True) for _ in range(rng.choice([0, 1, 1, 2, 3]))]
         seen = set()
@@ -260,11 +298,13 @@ def generate(rng, tier):
         sc = {"kind": "ts", "types": types, "da": dfe, "declare_da": declare_da, "seq": seq,
               "pad": rng.randint(1, 9) if rng.random() < 0.33 else 0, "layout": rng.randint(0, 5),
               "bi": bis + ([bad] if bad else []), "runs": [ident, perm, rev]}
+        if own is not None:
+            sc["own"] = own
         if rng.random() < 0.4:
             # a fourth descriptor outside the well-formed ones: all user declarations, shuffled, plus one more type that
             # redefines an inherited feature (equally: dropped; differently: ValueError), refers to an undeclared type
             # (KeyError) or inherits from a final array type (ValueError)
-            sc["xv"] = _gen_extra(rng, types, dfe)
+            sc["xv"] = _gen_extra(rng, types, dfe, own)
             sel = ident + [pool_n]
             rng.shuffle(sel)
             sc["runs"].append(sel)
@@ -332,8 +372,9 @@ def pool_of(sc):
     for t in sc["types"]:
         pool.append({"n": p(t["n"]), "d": t["d"], "s": p(t["s"]), "f": [feat(f) for f in t["f"]]})
     if sc["declare_da"]:
-        lang = {"n": "language", "d": None, "r": "uima.cas.String", "e": None, "m": None}
-        pool.append({"n": p(DOCANN), "d": None, "s": p(ANN), "f": [feat(f) for f in [lang] + sc["da"]]})
+        own = sc.get("own")
+        pool.append({"n": p(DOCANN), "d": own["d"] if own else None, "s": p(own["s"] if own else ANN),
+                     "f": [feat(f) for f in _da_feats(sc)]})
     for b in sc["bi"]:
         t = _bi_decl(b)
         pool.append({"n": p(t["n"]), "d": t["d"], "s": p(t["s"]), "f": [feat(f) for f in t["f"]]})
@@ -410,9 +451,14 @@ def lift(xml_text):
 
 def build_ts(cassis, sc):
     from cassis import TypeSystem
-    ts = TypeSystem()
-    for t in sc["types"]:
+    own = sc.get("own")
+    ts = TypeSystem(add_document_annotation_type=False) if own else TypeSystem()
+    for i, t in enumerate(sc["types"]):
+        if own and own["at"] == i:
+            ts.create_type(DOCANN, own["s"], description=own["d"])
         ts.create_type(t["n"], t["s"], description=t["d"])
+    if own and own["at"] >= len(sc["types"]):
+        ts.create_type(DOCANN, own["s"], description=own["d"])
     by = {t["n"]: t["f"] for t in sc["types"]}
     by[DOCANN] = sc["da"]
     for tn, j in sc["seq"]:
@@ -550,8 +596,9 @@ def _expected_content(sc):
     exp = {}
     for t in sc["types"]:
         exp[t["n"]] = (_nd(t["d"]), t["s"], [(f["n"], _nd(f["d"]), f["r"], f["e"], f["m"]) for f in t["f"]])
-    exp[DOCANN] = (None, ANN, [("language", None, "uima.cas.String", None, None)] +
-                   [(f["n"], _nd(f["d"]), f["r"], f["e"], f["m"]) for f in sc["da"]])
+    own = sc.get("own")
+    exp[DOCANN] = (_nd(own["d"]) if own else None, own["s"] if own else ANN,
+                   [(f["n"], _nd(f["d"]), f["r"], f["e"], f["m"]) for f in _da_feats(sc)])
     return exp
 
 
@@ -591,15 +638,20 @@ def _diff(a, b):
     return "?"
 
 
+def _descrs(sc):
+    return [t["d"] for t in sc["types"]] + [f["d"] for t in sc["types"] for f in t["f"]] + [f["d"] for f in sc["da"]] + \
+           ([sc["own"]["d"]] if sc.get("own") else [])
+
+
 def _clean(sc):
-    ds = [t["d"] for t in sc["types"]] + [f["d"] for t in sc["types"] for f in t["f"]] + [f["d"] for f in sc["da"]]
+    ds = _descrs(sc)
     return all(d is None or (d == d.strip() and d != "") for d in ds)
 
 
 def _blank(sc):
     """a description of white space only is loaded as "" and written as <description></description>, which is read as
     absent: bytes settle one trip later (byte layer; the abstract descriptors are compared in Coq)"""
-    ds = [t["d"] for t in sc["types"]] + [f["d"] for t in sc["types"] for f in t["f"]] + [f["d"] for f in sc["da"]]
+    ds = _descrs(sc)
     return any(d is not None and d != "" and d.strip() == "" for d in ds)
 
 
@@ -671,7 +723,7 @@ def oracle(cassis, sc, obs):
             return "permuted-bytes: the same declarations in another order re-emit to different bytes"
         by_sel[key] = r["x"]
         if sorted(i for i in sel if i < nuser) == list(range(nuser)) and not [i for i in sel if i >= nuser]:
-            if _clean(sc) and (sc["da"] or not sc["declare_da"]) and r["x"] != obs["x"]:
+            if _clean(sc) and (sc["da"] or sc.get("own") or not sc["declare_da"]) and r["x"] != obs["x"]:
                 return "permuted-bytes: a permutation of the descriptor re-emits to other bytes than to_xml(ts)"
     return None
 
@@ -736,9 +788,10 @@ def scenario_tsys(sc):
     """content of the API-built type system as the scenario states it (DocumentAnnotation is created first)"""
     def sf(f):
         return [_py(f["n"]), f["n"] in ("self", "type"), f["d"], f["r"], f["e"], f["m"]]
-    types = [[DOCANN, None, ANN, [["language", False, None, "uima.cas.String", None, None]] + [sf(f) for f in sc["da"]]]]
-    for t in sc["types"]:
-        types.append([t["n"], t["d"], t["s"], [sf(f) for f in t["f"]]])
+    own = sc.get("own")
+    da = [DOCANN, own["d"] if own else None, own["s"] if own else ANN, [sf(f) for f in _da_feats(sc)]]
+    types = [[t["n"], t["d"], t["s"], [sf(f) for f in t["f"]]] for t in sc["types"]]
+    types.insert(min(own["at"], len(types)) if own else 0, da)
     return {"types": types, "redecl": []}
 
 
@@ -806,6 +859,8 @@ def _drop_type(sc, name):
     remap = {old: new for new, old in enumerate(keep)}
     n_old = len(c["types"])
     c["types"] = [c["types"][i] for i in keep]
+    if c.get("own"):
+        c["own"]["at"] = sum(1 for i in keep if i < c["own"]["at"])
 
     def fix(fs):
         out = []
@@ -873,7 +928,7 @@ def shrink_candidates(sc):
         c = json.loads(json.dumps(sc))
         del c["da"][j]
         c["seq"] = [[t2["n"], k] for t2 in c["types"] for k in range(len(t2["f"]))] + [[DOCANN, k] for k in range(len(c["da"]))]
-        if not c["da"] and not c["declare_da"]:
+        if (not c["da"] and not c["declare_da"]) or not _own_ok(c):
             continue
         yield c
     if len(sc["runs"]) > 1:
@@ -891,6 +946,12 @@ def shrink_candidates(sc):
         yield dict(json.loads(json.dumps(sc)), pad=0)
     if sc["layout"]:
         yield dict(json.loads(json.dumps(sc)), layout=0)
+    if sc.get("own"):
+        for k, v in (("d", None), ("s", ANN), ("at", 0)):
+            if sc["own"][k] != v:
+                c = json.loads(json.dumps(sc))
+                c["own"][k] = v
+                yield c
     for ti, t in enumerate(sc["types"]):
         if t["d"] is not None:
             c = json.loads(json.dumps(sc))
@@ -931,7 +992,12 @@ def distribution(scenarios, observations):
             "user_ranges": sum(1 for f in feats if f["r"] not in BI),
             "builtin_ranges_used": len({f["r"] for f in feats if f["r"] in BI}),
             "no_namespace_types": sum(1 for s in ts for t in s["types"] if "." not in t["n"]),
-            "docann_extended": sum(1 for s in ts if s["da"]), "docann_declared": sum(1 for s in ts if s["declare_da"]),
+            "docann_extended": sum(1 for s in ts if s["da"] and not s.get("own")),
+            "docann_declared": sum(1 for s in ts if s["declare_da"]),
+            "docann_own": sum(1 for s in ts if s.get("own")),
+            "docann_own_without_features": sum(1 for s in ts if s.get("own") and not s["da"]),
+            "docann_own_without_language": sum(1 for s in ts if s.get("own") and s["da"]
+                                               and "language" not in [f["n"] for f in s["da"]]),
             "padded": sum(1 for s in ts if s["pad"]),
             "runs_rejected": sum(1 for r in runs if r["res"] != "ok"),
             "runs_with_builtins": sum(1 for s in ts for sel in s["runs"]
